@@ -392,7 +392,9 @@ def project(items, target, make, interp=None):
     for it in items:
         if isinstance(it, Op):
             if it.target is target:
-                out.append(make(it, interp) if make is compose_op_element else make(it))
+                el = make(it, interp) if make is compose_op_element else make(it)
+                if el is not None and not (el.kind == 'const' and el.w == 0):      # writing b'' writes nothing
+                    out.append(el)
         elif isinstance(it, tuple):
             tag = it[0]
             if tag == 'alt':
